@@ -27,7 +27,7 @@ source on this run, are the ones the model was written against -/
 theorem literals_ok :
     UNIX_EPOCH_DAY = 719163 ∧
     TS_LITS_timestamp = [86400] ∧ TS_LITS_timestamp_millis = [1000] ∧ TS_LITS_timestamp_micros = [1000000] ∧
-    TS_LITS_timestamp_nanos_opt = [0, 1000000000, 1, 1000000000] ∧
+    TS_LITS_timestamp_nanos_opt = [1000000000] ∧
     TS_LITS_timestamp_subsec_millis = [1000000] ∧ TS_LITS_timestamp_subsec_micros = [1000] ∧
     TS_LITS_from_timestamp = [86400, 86400] ∧ TS_LITS_from_timestamp_millis = [1000, 1000, 1000000] ∧
     TS_LITS_from_timestamp_micros = [1000000, 1000000, 1000] ∧
@@ -227,14 +227,13 @@ theorem nanos_opt_none_iff (dt : NaiveDT) (h : NDTInv dt) (hs : TStrict dt.time)
   · intro hx
     rw [if_neg (by omega)]
 
-/-- Observation (not a violation of the property, which speaks of counts of real instants): a
-leap-second *representation* on a second other than 59 — which only `with_nanosecond` can build, never a
-timestamp constructor — one second below the lower end of the window makes the workaround's
-`(ts+1)·10⁹` leave `i64`, so absence is reported although `instSecs·10⁹ + frac` would fit.  This is why
-`nanos_opt_exact` assumes `TStrict`. -/
+/-- Regression witness of finding F27 (repaired by 32de816): a leap-second *representation* on a second
+other than 59 — which only `with_nanosecond` can build — on the second -9223372038 has a count that
+fits `i64`; the former negative-timestamp workaround `(ts+1)·10⁹` left `i64` there and `None` was
+returned.  The count is now formed in 128 bits and the value is reported. -/
 theorem nanos_opt_nonstrict_leap_witness :
     let dt : NaiveDT := ⟨⟨13742219⟩, ⟨762, 1500000000⟩⟩
-    NDTInv dt ∧ ¬ TStrict dt.time ∧ isI64 (instNs dt) ∧ NaiveDT.timestamp_nanos_opt dt = .ok none := by
+    NDTInv dt ∧ ¬ TStrict dt.time ∧ isI64 (instNs dt) ∧ NaiveDT.timestamp_nanos_opt dt = .ok (some (instNs dt)) := by
   decide +kernel
 
 /-! ## the system clock type -/
